@@ -17,7 +17,6 @@ structure NcCfgB (env : SimEnv) (s0 : Sys) : Prop where
   hfull : s0.buf.size = [] ∧ s0.buf.hot.cur = s0.buf.hot.total ∧ s0.buf.cold.cur = s0.buf.cold.total
   hct : s0.buf.cold.transfer = none
   h1 : Sys.NoTierCfg s0
-  h2 : Sys.OneAdmission s0
   alg : Sys.BatchAlg s0
   stat : s0.staticPlan = false
   topo : ∀ o ∈ s0.obs, IsTopo o.wf
